@@ -49,6 +49,8 @@ extern "C" void vp_main() {
     // read faults reach the reference as "stream interrupted" (a fault ends the step: it is the last event of the step)
     if (tr->m_nfault != faultsBefore) g_ref.fault();
     vp_known("KF-C01-QQ-NONMASTER", g_ref.sawNonMasterQQ);
+  vp_known("KF-C01-ZZ-SELF", g_ref.sawSelfZZ);
+  vp_known("KF-C01-ESC-SYN-STALE-CRC", g_ref.escThenSyn);
     unsigned newRef = g_ref.nreports - repBefore, newMsg = lst.m_nmsg - msgBefore;
     vp_assert("reports-exactly-the-valid-telegrams-count", newRef == newMsg);
     if (newMsg == 1 && newRef == 1 && msgBefore < ENV_MAXMSG) {
